@@ -53,11 +53,20 @@ class Conclusion(SymbolicExpression[T], ABC):
 
     @property
     def _name_(self) -> str:
-        value_str = (
-            self.value._type_.__name__
-            if isinstance(self.value, Variable)
-            else str(self.value)
-        )
+        # Building a rule must not run user code, so a constant user object is shown by its type, not formatted.
+        if isinstance(self.value, Variable):
+            value_str = self.value._type_.__name__
+        elif isinstance(self.value, SymbolicExpression) or type(self.value) in (
+            int,
+            float,
+            str,
+            bool,
+            bytes,
+            type(None),
+        ):
+            value_str = str(self.value)
+        else:
+            value_str = type(self.value).__name__
         return f"{self.__class__.__name__}({self.var._var_._name_}, {value_str})"
 
     def _reset_cache_(self) -> None: ...
